@@ -239,6 +239,18 @@ Definition meta_clear (h : handle) (d : adir) : opres :=
     end
   else (Ok tt, h, []).
 
+(* pop / popitem / del: the mode is looked at first; a missing key raises KeyError *)
+Definition meta_pop (h : handle) (d : adir) : opres :=
+  match h_mode h with
+  | R => (Err OSError, h, [])
+  | RW => if a_meta d then
+            match a_descr d with
+            | Val ds => (Ok tt, h, [EUnlinkMeta; EWriteReadme (ds, false)])
+            | _ => (Err ValueError, h, [EUnlinkMeta])
+            end
+          else (Err KeyError, h, [])
+  end.
+
 (* ---------- operations and histories ---------- *)
 
 Inductive aop :=
@@ -247,7 +259,8 @@ Inductive aop :=
 | OpSetItem (w : option (list (Z * list Z)))
 | OpSetMode (m : mode)
 | OpReopen (m : mode)
-| OpMetaSet | OpMetaClear.
+| OpMetaSet | OpMetaClear
+| OpMetaPop.    (* metadata.pop / popitem / del of the only key *)
 
 Definition world := (handle * adir)%type.
 
@@ -261,6 +274,7 @@ Definition exec (w : world) (o : aop) : opres :=
   | OpReopen m => match open_dir d m with Ok h' => (Ok tt, h', []) | Err e => (Err e, h, []) end
   | OpMetaSet => meta_set h d
   | OpMetaClear => meta_clear h d
+  | OpMetaPop => meta_pop h d
   end.
 
 Definition step (w : world) (o : aop) : res unit * world :=
